@@ -1,5 +1,6 @@
 (* C06 — QUIC CRYPTO stream reassembly: sort + merge of fragments recovers the stream. *)
-From Coq Require Import List NArith Bool Arith Lia ZifyBool ZifyN ZifyNat Sorted.
+From Coq Require Import List NArith ZArith Bool Arith Lia ZifyBool ZifyN ZifyNat Sorted.
+From Dae.gen Require Import C06_Extracted.
 From Dae Require Import C06_Spec C06_Model C06_Statements.
 Import ListNotations.
 Open Scope N_scope.
@@ -293,3 +294,220 @@ Proof.
 Qed.
 
 Print Assumptions C06_crypto_reassembly_proof.
+
+(* ------------------------------------------------------------------ QUIC varint and frame parsing round trip *)
+(* RFC 9000 section 16, minimal-length encoding, n < 2^62 *)
+
+
+Ltac divlia := Zify.zify; Z.div_mod_to_equations; lia.
+
+Lemma chain : forall n a b, b = a * 256 -> a <> 0 -> (n / b) * 256 + (n / a) mod 256 = n / a.
+Proof.
+  intros n a b -> Ha. rewrite <- N.div_div by lia. rewrite N.mul_comm. symmetry. apply N.div_mod'. 
+Qed.
+Lemma t8 : forall n, n < 4611686018427387904 -> ~ n < 1073741824 ->
+ ((((((((192 + n / 72057594037927936) mod 64) * 256 + (n / 281474976710656) mod 256) * 256 + (n / 1099511627776) mod 256) * 256 +
+     (n / 4294967296) mod 256) * 256 + (n / 16777216) mod 256) * 256 + (n / 65536) mod 256) * 256 + (n / 256) mod 256) * 256 + n mod 256 = n.
+Proof.
+  intros n H1 H2.
+  assert (Hm : (192 + n / 72057594037927936) mod 64 = n / 72057594037927936).
+  { assert (n / 72057594037927936 < 64) by (apply N.div_lt_upper_bound; lia).
+    change 192 with (3 * 64). rewrite N.add_comm, N.mod_add by lia. apply N.mod_small. assumption. }
+  rewrite Hm.
+  rewrite (chain n 281474976710656 72057594037927936); [|reflexivity|discriminate].
+  rewrite (chain n 1099511627776 281474976710656); [|reflexivity|discriminate].
+  rewrite (chain n 4294967296 1099511627776); [|reflexivity|discriminate].
+  rewrite (chain n 16777216 4294967296); [|reflexivity|discriminate].
+  rewrite (chain n 65536 16777216); [|reflexivity|discriminate].
+  rewrite (chain n 256 65536); [|reflexivity|discriminate].
+  rewrite <- (N.div_1_r n) at 2. rewrite (chain n 1 256); [|reflexivity|discriminate]. apply N.div_1_r.
+Qed.
+Lemma q8 : forall n, n < 4611686018427387904 -> (192 + n / 72057594037927936) / 64 = 3.
+Proof.
+  intros n H. assert (n / 72057594037927936 < 64) by (apply N.div_lt_upper_bound; lia).
+  change 192 with (3 * 64). rewrite N.add_comm, N.div_add by lia. rewrite N.div_small by assumption. reflexivity.
+Qed.
+
+Lemma uvarint_enc : forall n r, n < 4611686018427387904 ->
+  uvarint (enc_varint n ++ r) = Some (n, blen (enc_varint n)).
+Proof.
+  intros n r Hn. unfold enc_varint.
+  destruct (n <? 64) eqn:E1; [|destruct (n <? 16384) eqn:E2; [|destruct (n <? 1073741824) eqn:E3]];
+    cbn [app]; unfold uvarint.
+  - assert (Hq : n / 64 = 0) by divlia. assert (Hm : n mod 64 = n) by divlia.
+    rewrite Hq, Hm. change (N.shiftl 1 0) with 1.
+    replace (blen (n :: r) <? 1) with false by (unfold blen; cbn [length]; lia).
+    change (N.to_nat 1 - 1)%nat with 0%nat. cbn [firstn fold_left]. reflexivity.
+  - assert (Hq : (64 + n / 256) / 64 = 1) by divlia.
+    rewrite Hq. change (N.shiftl 1 1) with 2.
+    match goal with |- context [blen ?l <? 2] => replace (blen l <? 2) with false by (unfold blen; cbn [length]; lia) end.
+    change (N.to_nat 2 - 1)%nat with 1%nat. cbn [firstn fold_left]. f_equal. f_equal. divlia.
+  - assert (Hq : (128 + n / 16777216) / 64 = 2) by divlia.
+    rewrite Hq. change (N.shiftl 1 2) with 4.
+    match goal with |- context [blen ?l <? 4] => replace (blen l <? 4) with false by (unfold blen; cbn [length]; lia) end.
+    change (N.to_nat 4 - 1)%nat with 3%nat. cbn [firstn fold_left]. f_equal. f_equal. divlia.
+  - assert (Hq : (192 + n / 72057594037927936) / 64 = 3) by (apply q8; assumption).
+    rewrite Hq. change (N.shiftl 1 3) with 8.
+    match goal with |- context [blen ?l <? 8] => replace (blen l <? 8) with false by (unfold blen; cbn [length]; lia) end.
+    change (N.to_nat 8 - 1)%nat with 7%nat. cbn [firstn fold_left]. f_equal. f_equal. apply t8; [assumption|lia].
+Qed.
+
+Lemma enc_varint_nonempty : forall n, 1 <= blen (enc_varint n).
+Proof.
+  intros n. unfold enc_varint.
+  destruct (n <? 64); [|destruct (n <? 16384); [|destruct (n <? 1073741824)]]; unfold blen; cbn [length]; lia.
+Qed.
+
+Lemma skipn_blen_app : forall (a b : bytes), skipn (N.to_nat (blen a)) (a ++ b) = b.
+Proof.
+  intros a b. unfold blen. rewrite Nat2N.id, skipn_app, skipn_all, Nat.sub_diag. reflexivity.
+Qed.
+
+Lemma sub_mid : forall (a d y : bytes), sub (a ++ d ++ y) (blen a) (blen a + blen d) = d.
+Proof.
+  intros a d y. unfold sub. rewrite skipn_blen_app.
+  replace (N.to_nat (blen a + blen d - blen a)) with (length d) by (unfold blen; lia).
+  rewrite firstn_app, firstn_all, Nat.sub_diag. cbn [firstn]. apply app_nil_r.
+Qed.
+
+Lemma uvarint_small : forall b r, b < 64 -> uvarint (b :: r) = Some (b, 1).
+Proof.
+  intros b r H. assert (E : enc_varint b = [b]) by (unfold enc_varint; replace (b <? 64) with true by lia; reflexivity).
+  change (b :: r) with ([b] ++ r). rewrite <- E. rewrite uvarint_enc by lia. rewrite E. reflexivity.
+Qed.
+
+Lemma frames_step : forall f pre X Y acc o, X <> [] ->
+  extract_frame (X ++ Y) = FOk o (blen X) ->
+  frames_loop (S f) (pre ++ X ++ Y) (blen pre) acc
+  = frames_loop f ((pre ++ X) ++ Y) (blen (pre ++ X)) (match o with Some x => acc ++ [x] | None => acc end).
+Proof.
+  intros f pre X Y acc o Hne He. cbn [frames_loop].
+  replace (blen pre <? blen (pre ++ X ++ Y)) with true
+    by (destruct X; [congruence|unfold blen; rewrite !app_length; cbn [length]; lia]).
+  rewrite skipn_blen_app, He. rewrite <- app_assoc. f_equal. unfold blen. rewrite app_length. lia.
+Qed.
+
+Lemma extract_ping : forall Y, extract_frame ([1] ++ Y) = FOk None (blen [1]).
+Proof.
+  intros Y. cbn [app]. unfold extract_frame. rewrite uvarint_small by lia. reflexivity.
+Qed.
+
+Lemma extract_padding : forall k Y, count_zeros Y = 0 ->
+  extract_frame (repeat 0 (S k) ++ Y) = FOk None (blen (repeat 0 (S k))).
+Proof.
+  intros k Y HY. cbn [repeat app]. unfold extract_frame. rewrite uvarint_small by lia.
+  unfold frame_ping, frame_padding. change (0 =? 1) with false. change (0 =? 0) with true. cbv iota.
+  change (N.to_nat 1) with 1%nat. cbn [skipn]. f_equal.
+  unfold blen. cbn [length]. rewrite repeat_length.
+  assert (Hc : count_zeros (repeat 0 k ++ Y) = N.of_nat k).
+  { induction k as [|k IH]; [exact HY|]. cbn [repeat app count_zeros]. rewrite IH. lia. }
+  rewrite Hc. lia.
+Qed.
+
+Lemma extract_crypto : forall off d Y, off < 4611686018427387904 -> blen d < 4611686018427387904 ->
+  extract_frame (([6] ++ enc_varint off ++ enc_varint (blen d) ++ d) ++ Y)
+  = FOk (Some (off, d)) (blen ([6] ++ enc_varint off ++ enc_varint (blen d) ++ d)).
+Proof.
+  intros off d Y Ho Hd. cbn [app]. rewrite <- !app_assoc.
+  set (eo := enc_varint off). set (el := enc_varint (blen d)).
+  unfold extract_frame. rewrite uvarint_small by lia.
+  unfold frame_ping, frame_padding, frame_crypto.
+  change (6 =? 1) with false. change (6 =? 0) with false. change (6 =? 6) with true. cbv iota.
+  change (N.to_nat 1) with 1%nat. cbn [skipn]. subst eo. rewrite uvarint_enc by assumption.
+  set (eo := enc_varint off).
+  replace (1 + blen eo) with (blen (6 :: eo)) by (unfold blen; cbn [length]; lia).
+  change (6 :: eo ++ el ++ d ++ Y) with ((6 :: eo) ++ el ++ d ++ Y).
+  rewrite skipn_blen_app. subst el. rewrite uvarint_enc by assumption.
+  set (el := enc_varint (blen d)).
+  replace (blen (6 :: eo) + blen el) with (blen ((6 :: eo) ++ el)) by (unfold blen; rewrite app_length; lia).
+  replace ((6 :: eo) ++ el ++ d ++ Y) with (((6 :: eo) ++ el) ++ d ++ Y) by (rewrite <- app_assoc; reflexivity).
+  replace (blen (((6 :: eo) ++ el) ++ d ++ Y) <? blen ((6 :: eo) ++ el) + blen d) with false
+    by (unfold blen; rewrite !app_length; lia).
+  rewrite sub_mid. f_equal. unfold blen. cbn [app length]. rewrite !app_length. cbn [length]. lia.
+Qed.
+
+Fixpoint pad_count (fs : list qframe) : nat :=
+  match fs with QPadding n :: r => (n + pad_count r)%nat | _ => 0%nat end.
+Fixpoint drop_pads (fs : list qframe) : list qframe :=
+  match fs with QPadding _ :: r => drop_pads r | _ => fs end.
+
+Lemma enc_pads : forall fs, enc_frames fs = repeat 0 (pad_count fs) ++ enc_frames (drop_pads fs).
+Proof.
+  induction fs as [|[n| |off d] r IH]; try reflexivity.
+  cbn [pad_count drop_pads]. unfold enc_frames in *. cbn [flat_map enc_qframe].
+  rewrite IH, repeat_app, <- app_assoc. reflexivity.
+Qed.
+
+Lemma cryptos_drop : forall fs, cryptos (drop_pads fs) = cryptos fs.
+Proof. induction fs as [|[n| |off d] r IH]; try reflexivity. exact IH. Qed.
+
+Lemma length_drop : forall fs, (length (drop_pads fs) <= length fs)%nat.
+Proof. induction fs as [|[n| |off d] r IH]; cbn [drop_pads length]; lia. Qed.
+
+Lemma wf_drop : forall fs, wf_frames fs -> wf_frames (drop_pads fs).
+Proof.
+  induction fs as [|[n| |off d] r IH]; intros H; auto. inversion H; subst. apply IH. assumption.
+Qed.
+
+Lemma zeros_drop : forall fs, count_zeros (enc_frames (drop_pads fs)) = 0.
+Proof. induction fs as [|[n| |off d] r IH]; try reflexivity. exact IH. Qed.
+
+Lemma frames_core : forall fuel fs pre acc, wf_frames fs -> (length fs < fuel)%nat ->
+  frames_loop fuel (pre ++ enc_frames fs) (blen pre) acc = ROk (acc ++ cryptos fs).
+Proof.
+  induction fuel as [|fuel IH]; intros fs pre acc Hwf Hlen; [lia|].
+  destruct fs as [|fr rest].
+  - cbn [frames_loop enc_frames flat_map cryptos]. rewrite !app_nil_r, N.ltb_irrefl. reflexivity.
+  - inversion Hwf as [|? ? Hw1 Hw2]; subst. cbn [length] in Hlen.
+    destruct fr as [n| |off d].
+    + cbn [wf_qframe] in Hw1. destruct n as [|m]; [lia|].
+      change (enc_frames (QPadding (S m) :: rest)) with (repeat 0 (S m) ++ enc_frames rest).
+      rewrite (enc_pads rest), (app_assoc (repeat 0 (S m))), <- repeat_app.
+      change (S m + pad_count rest)%nat with (S (m + pad_count rest)).
+      rewrite frames_step with (o := None).
+      * rewrite IH; [|apply wf_drop; assumption|pose proof (length_drop rest); lia].
+        rewrite cryptos_drop. reflexivity.
+      * discriminate.
+      * apply extract_padding, zeros_drop.
+    + change (enc_frames (QPing :: rest)) with ([1] ++ enc_frames rest).
+      rewrite frames_step with (o := None).
+      * rewrite IH; [reflexivity|assumption|lia].
+      * discriminate.
+      * apply extract_ping.
+    + destruct Hw1 as [Ho Hd].
+      change (enc_frames (QCrypto off d :: rest)) with (enc_qframe (QCrypto off d) ++ enc_frames rest).
+      cbn [enc_qframe].
+      rewrite frames_step with (o := Some (off, d)).
+      * rewrite IH; [|assumption|lia]. cbn [cryptos flat_map crypto_of]. rewrite <- app_assoc. reflexivity.
+      * discriminate.
+      * apply extract_crypto; assumption.
+Qed.
+
+Lemma enc_frames_length : forall fs, wf_frames fs -> (length fs <= length (enc_frames fs))%nat.
+Proof.
+  induction fs as [|fr r IH]; intros H; [cbn; lia|]. inversion H as [|? ? H1 H2]; subst.
+  unfold enc_frames in *. cbn [flat_map length]. rewrite app_length. specialize (IH H2).
+  assert (1 <= length (enc_qframe fr))%nat; [|lia].
+  destruct fr as [n| |off d]; cbn [enc_qframe wf_qframe] in *.
+  - rewrite repeat_length. assumption.
+  - cbn. lia.
+  - cbn [app length]. lia.
+Qed.
+
+(* frame parsing round trip: the first phase of `reassemble` recovers exactly the CRYPTO frames,
+   whatever PADDING / PING frames are interleaved *)
+Lemma C06_frames_roundtrip : forall fs acc, wf_frames fs ->
+  frames_loop (S (length (enc_frames fs))) (enc_frames fs) 0 acc = ROk (acc ++ cryptos fs).
+Proof.
+  intros fs acc H. apply (frames_core (S (length (enc_frames fs))) fs [] acc H).
+  pose proof (enc_frames_length fs H). lia.
+Qed.
+
+Lemma C06_reassemble_roundtrip : forall fs offsets, wf_frames fs ->
+  reassemble offsets (enc_frames fs) = ROk (reassemble_frags offsets (cryptos fs)).
+Proof.
+  intros fs offsets H. unfold reassemble. rewrite C06_frames_roundtrip by assumption. reflexivity.
+Qed.
+
+Print Assumptions C06_frames_roundtrip.
+Print Assumptions C06_reassemble_roundtrip.
